@@ -73,7 +73,8 @@ func oracleC15(p *Pair, env *Env, a [][]byte) *Failure {
 	root := filepath.Join(sb, "outer", "crs")
 	_ = t.write(root)
 	// things outside the root
-	outside := Tree{"outer/other.conf": []byte("# OWASP CRS ver.1.0.0\n"), "outer/x.ra": []byte("  a  \n"), "outer/tests/regression/tests/R/920100.yaml": []byte("  - test_id: 9\n"), "beside/rules/REQUEST-942-X.conf": []byte("SecRule ARGS \"@rx z\" \\\n \"id:942100\"\n")}
+	outside := Tree{"outer/other.conf": []byte("# OWASP CRS ver.1.0.0\n"), "outer/x.ra": []byte("  a  \n"), "outer/tests/regression/tests/R/920100.yaml": []byte("  - test_id: 9\n"), "beside/rules/REQUEST-942-X.conf": []byte("SecRule ARGS \"@rx z\" \\\n \"id:942100\"\n"),
+		"beside/tests/regression/tests/R/942100.yaml": []byte("  - test_id: 5\n  - test_id: 5\n"), "beside/crs-setup.conf.example": []byte("# OWASP CRS ver.1.0.0\n# Copyright (c) 2021-2022 CRS project. All rights reserved.\n")}
 	_ = outside.write(sb)
 	cwd := root
 	full := append([]string{"-l", "disabled"}, argv...)
@@ -87,6 +88,14 @@ func oracleC15(p *Pair, env *Env, a [][]byte) *Failure {
 	case "d-rel":
 		cwd = filepath.Join(sb, "outer")
 		full = append([]string{"-l", "disabled", "-d", "crs/rules"}, argv...)
+	case "d-parent":
+		// -d names a directory that is not inside any CRS root (the parent of one): no root resolves, nothing is touched
+		cwd = sb
+		full = append([]string{"-l", "disabled", "-d", filepath.Join(sb, "outer")}, argv...)
+	case "d-beside":
+		// … or a sibling with rule and test files of its own
+		cwd = root
+		full = append([]string{"-l", "disabled", "-d", "../../beside"}, argv...)
 	}
 	before := snapshot(sb)
 	c := runCLI(env, cwd, []byte("foo\nbar\n"), full...)
@@ -133,7 +142,7 @@ func genC15(r *rand.Rand, tier string, env *Env) []Case {
 			[]string{"regex", "generate", "999999"}, []string{"regex", "update", "999999"}, []string{"regex", "compare", "999999"},
 			[]string{"util", "renumber-tests", "-c", "999999"}, []string{"util", "renumber-tests", "999999"})
 		for _, c := range cmds {
-			mode := pick(r, []string{"cwd", "cwd", "d-root", "d-sub", "d-rel"})
+			mode := pick(r, []string{"cwd", "cwd", "d-root", "d-sub", "d-rel", "d-parent", "d-beside"})
 			kind := regexp.MustCompile(`\d{6}(-chain\d+)?|words\d+`).ReplaceAllString(strings.Join(c, " "), "TARGET")
 			cases = append(cases, Case{Kind: "cmd:" + kind,
 				Oracles: []Op{{"c15.writeset", [][]byte{encodeTree(ct.t), []byte(strings.Join(c, "\x00")), []byte(mode)}}}})
@@ -471,6 +480,25 @@ func oracleC08(p *Pair, env *Env, a [][]byte) *Failure {
 		}
 		if norm(all.stdout) != norm(singles...) {
 			return &Failure{What: "compare --all reports other verdicts than the single invocations", Detail: fmt.Sprintf("all %q\nsingles %q", norm(all.stdout), norm(singles...))}
+		}
+		// not only the verdicts: every line a single invocation prints about its rule (the difference display
+		// included) is printed by --all as well, and nothing else
+		allLines := func(bs ...[]byte) string {
+			var ls []string
+			for _, b := range bs {
+				for _, l := range strings.Split(string(b), "\n") {
+					if l != "" {
+						ls = append(ls, l)
+					}
+				}
+			}
+			sort.Strings(ls)
+			return strings.Join(ls, "\n")
+		}
+		if all.exit == 0 && exitOne == 0 || all.exit != 0 && exitOne != 0 {
+			if x, y := allLines(all.stdout), allLines(singles...); x != y {
+				return &Failure{What: "compare --all prints other lines about the rules than the single invocations", Detail: fmt.Sprintf("all:\n%s\nsingles:\n%s", x, y)}
+			}
 		}
 		// the same in the other output mode: every rule is still reported, by --all as by the single invocations
 		normG := func(bs ...[]byte) string {
